@@ -251,6 +251,13 @@ def quiet_call(f):
         os.close(devnull); os.close(so); os.close(se)
 
 
+def guard_call(f):
+    try:
+        return f()
+    except BaseException as ex:
+        return 'err-%s: %s' % (type(ex).__name__, str(ex)[:200])
+
+
 def make_case(name, seed, tier):
     """build spaces, geometry, inputs for one form instance"""
     from pyiga import bspline
